@@ -11,7 +11,7 @@ SCHEDULE_DEPENDENT = True
 RULE = ('statements are generated as source lines from a grammar - reads in expressions (x = o.a, f(o.a), x = o.a + 1, '
         'x = (o.a, o.b)), comparisons (==, !=, <, <=, >, >=, also as if/while conditions), assignments (o.a = k, o.a = o.a + k, '
         'o.a = o.b), augmented assignments to the attribute itself (all eleven operators), augmented assignments to other '
-        'targets that read the attribute (x += o.a, o.b += o.a, p.a += o.a), the documented lock form (_, _lock = o.a followed '
+        'targets that read the attribute (x += o.a, o.b += o.a, p.a += o.a, and r.a += o.a / z.a += o.a where r and z are other objects with a same-named attribute), the documented lock form (_, _lock = o.a followed '
         'by a with-block) and two-statement lines - and executed by one simulated thread, 1-4 statements per run; after every '
         'statement the kernel\'s own bookkeeping says whether the thread still owns the simulated RLock of any attribute, and '
         'afterwards a second thread reads every attribute of both instances (the observable the property names) and must '
@@ -47,6 +47,11 @@ def productions(rng):
     prods.append(('aug-other', 'o.b %s o.a' % op))
     prods.append(('aug-other', 'p.a %s o.a' % op))
     prods.append(('aug-other', 'd["k"] %s o.a' % op))
+  # the attribute is read on the right hand side of an augmented assignment to a same-named attribute of
+  # another object: r is an instance of another class with thread-safe attributes, z a plain object
+  for op in ('+=', '-=', '|='):
+    prods.append(('aug-same-name-other-object', 'r.a %s o.a' % op))
+    prods.append(('aug-same-name-other-object', 'z.a %s o.a' % op))
   prods += [('mixed', 'x = o.a; o.a = x + %d' % k), ('mixed', 'o.a += o.b'), ('mixed', 'o.a += o.a'),
             ('lock-form', '_, _lock = o.a'), ('lock-form-block', '_, _lock = o.a\nwith _lock:\n  o.a = %d' % k)]
   return prods
@@ -61,8 +66,11 @@ def generate(seed, stratum, tier):
     # statements that touch one attribute only: a statement that updates one attribute while it reads
     # another (o.b += o.a against o.a += o.b) can deadlock by lock order; no listed property speaks
     # about that and it is not what is asked here
-    safe = [p for p in prods if p[0] not in ('lock-form', 'lock-form-block') and 'while' not in p[1] and '.b' not in p[1]]
+    safe = [p for p in prods if p[0] not in ('lock-form', 'lock-form-block', 'aug-same-name-other-object') and 'while' not in p[1] and '.b' not in p[1]]
     scripts = [[list(rng.choice(safe)) for _ in range(rng.randrange(1, 3))] for _ in range(2)]
+    if rng.random() < 0.5:
+      # the second thread works on another instance of the same class (same descriptor, other object)
+      scripts[1] = [[k, t.replace('o.a', 'q.a').replace('p.a', 'o.a').replace('q.a', 'p.a')] for k, t in scripts[1]]
     return {'statements': scripts[0], 'second': scripts[1],
             'sched': common.draw_sched(rng, grans=('line', 'opcode'), weights=(1, 3), expected_steps=200, policies=('sticky', 'pct'))}
   n = rng.randrange(1, 5)
@@ -90,6 +98,12 @@ def execute(sc, sched):
   sim = common.new_sim(sc, sched, max_steps=100000)
   cls = tc.make_class(['a', 'b'])
   o, p = cls(), cls()
+  other_cls = tc.make_class(['a'], name='Other')
+  r = other_cls()
+
+  class Plain(object):
+    a = 0
+  z = Plain()
   texts = [st[1] for st in sc['statements']]
   # a multi-line production (the with-block) is one "statement" for the oracle: the marker comes after it
   code = tc.compile_script(texts)
@@ -101,7 +115,7 @@ def execute(sc, sched):
   code2 = tc.compile_script(texts2) if texts2 else None
 
   def client(which=0):
-    ns = {'o': o, 'p': p, 'x': 0, 'y': 0, 'f': lambda v: v, 'd': {'k': 0}}
+    ns = {'o': o, 'p': p, 'r': r, 'z': z, 'x': 0, 'y': 0, 'f': lambda v: v, 'd': {'k': 0}}
 
     def _m(i):
       me = kernel.current_ctl()
